@@ -2,7 +2,7 @@
    what the implementation was observed to do, checked against the model. *)
 From Coq Require Import String List NArith ZArith Bool.
 From J5V.lib Require Import Outcome Corr Json.
-From J5V.model Require Import CodecTypes CodecDecScalar CodecDec CodecDecQuery.
+From J5V.model Require Import CodecTypes CodecDecScalar CodecDec CodecDecQuery CodecDecTree.
 Import ListNotations.
 Local Open Scope N_scope.
 
@@ -59,7 +59,7 @@ Definition dec_check (c : deccase) : bool :=
   | CLex doc toks me =>
       let '(ts, me') := lex doc in tokens_eqb ts toks && Bool.eqb me me'
   | CDec e root doc ft tmt dt obs =>
-      env_wf e && obs_matches (decode_bytes (orc_of ft tmt dt) e root doc) obs
+      env_wf e && env_separate e && obs_matches (decode_bytes (orc_of ft tmt dt) e root doc) obs
   | CQuery e root kvs ft tmt dt obs =>
       env_wf e && existsb (fun p => obs_matches (decode_query (orc_of ft tmt dt) e root p) obs) (perms kvs)
   end.
